@@ -126,3 +126,26 @@ prop("C18",
                 "and IPv6 zones are outside the generated domain.",
      technique="runtime round-trip / re-encoding-stability monitors over generated values and accepted mutated byte strings",
      assumptions=["values compared field by field; nil and empty slices identified"])
+
+prop("C02",
+     level="fault_enumeration",
+     exhaustive=True,
+     parts=[{"engine": "hsk"}],
+     floor={"quick": 5000, "thorough": 50000},
+     child_timeout={"quick": 900, "thorough": 3000},
+     rule="Real transport.Server/Client over the simulated network in synctest bubbles; a MITM changes exactly one handshake "
+          "datagram of a flow: every byte offset of each of the 5 discoverable and 2 hidden messages XORed with a non-zero mask "
+          "(1 seed-chosen mask per offset in quick; the 8 single-bit masks, 0xFF and 2 random masks in thorough), every "
+          "truncation length 0..len-1, replacement by the corresponding datagram of an earlier handshake, and swapping the "
+          "datagrams of two concurrently running handshakes. Oracle: the receiver must not complete (client Handshake() errors; "
+          "no established server session / accepted handle for the flow; only the sender of the final ClientAuth may complete). "
+          "Every batch starts and ends with an honest handshake that must complete with equal session ids and keys, distinct "
+          "directional keys and a data message each way; all session keys of the run must be pairwise distinct. Non-trivial = a "
+          "tampered datagram that was actually delivered and whose outcome was observed; distinct by (mode, message, kind, offset, mask, length).",
+     level_text="Exhaustive fault enumeration over byte positions and truncation lengths of every handshake datagram as actually "
+                "produced (masks sampled in quick, widened in thorough), plus replacement/swap splices; outcome observed "
+                "black-box (Handshake error, Accept) and white-box (session table, keys).",
+     level_note="Message sizes are those of the harness certificate chain; datagram extension is recorded but not judged (the "
+                "statement lists alteration, truncation and replacement). Virtual time (testing/synctest).",
+     technique="in-flight fault injection on a simulated network (exhaustive byte/truncation enumeration) with online outcome monitors and offline key-uniqueness check",
+     assumptions=["go1.26 testing/synctest virtual time", "ML-KEM implicit rejection is observed only through the handshake outcome"])
